@@ -18,6 +18,7 @@ source changes `helloSplitMax` / `regexGreedy` / `claims_Watercare` and these pr
 did is kept as theorems about explicit old parameters (`hello_name_with_bar_fails`, `frame_roundtrip_fails`,
 `frame_roundtrip_greedy`, `hello_roundtrip_split`, `old_watercare_claims_miss_setwc_wcreq`): true whatever the source says.
 -/
+import GeckoModel.Model.HelloObject
 import GeckoModel.Proofs.WireClaims
 import GeckoModel.Generated.WirePins
 
@@ -313,5 +314,31 @@ example : occurs (DESCN_CLOSE ++ DATAS_OPEN) ([1] ++ SRCCN_CLOSE ++ DESCN_OPEN +
 example : (Msg.helloResponse [83, 80, 65, 48, 49] [77, 121, 32, 83, 112, 97]).inDomain = true := by decide
 example : ∀ td ∈ [((1 : Int), (-13 : Int)), (6, 32767), (0, -32768)], td.1 ∈ reminderTypeValues ∧ -32768 ≤ td.2 ∧ td.2 < 32768 := by
   decide
+
+/-! ## long-lived hello handler: what a message decodes to does not depend on what the same object decoded before -/
+
+theorem hello_resets_everything :
+    ∀ a ∈ ["was_broadcast_discovery", "_client_identifier", "_spa_identifier", "_spa_name"], a ∈ helloResetAttrs := by decide
+
+/-- **history independence**: whatever the handler object holds from earlier hellos, `handle` gives the same result as on a
+fresh instance - for every message, well-formed or not -/
+theorem hello_history_independent (o : HelloObject.Obj) (bs : Bytes) :
+    (HelloObject.handle o bs).1 = HelloObject.fresh bs := by
+  have h : ∀ o : HelloObject.Obj, HelloObject.resetWith helloResetAttrs o = {} := by
+    intro o
+    have m1 : "was_broadcast_discovery" ∈ helloResetAttrs := hello_resets_everything _ (by simp)
+    have m2 : "_client_identifier" ∈ helloResetAttrs := hello_resets_everything _ (by simp)
+    have m3 : "_spa_identifier" ∈ helloResetAttrs := hello_resets_everything _ (by simp)
+    have m4 : "_spa_name" ∈ helloResetAttrs := hello_resets_everything _ (by simp)
+    simp [HelloObject.resetWith, m1, m2, m3, m4]
+  unfold HelloObject.fresh HelloObject.handle HelloObject.handleWith
+  simp only [h]
+
+/-- why the reset list is an obligation: a handler that does not reset `was_broadcast_discovery` decodes a client hello as a
+broadcast once it has seen one -/
+example :
+    let r := ["_client_identifier", "_spa_identifier", "_spa_name"]
+    let o1 := (HelloObject.handleWith r {} (HELLO_OPEN ++ [49] ++ HELLO_CLOSE)).2
+    ((HelloObject.handleWith r o1 (HELLO_OPEN ++ [73, 79, 83, 120] ++ HELLO_CLOSE)).2).bcast = true := by decide +kernel
 
 end GeckoModel.C04
